@@ -39,6 +39,8 @@ structure CfgOK (C : TtlDoc.Cfg) (T : Tables) : Prop where
   prod : C.P = TtlDoc.Producers.real T
   pnBase : ∀ c, C.pnBase c = inRanges T.pnCharsBase c
   sp : C.isSpace 0x20 = true
+  /-- a line feed after the keyword `a` (multi-line layout of nested-resource mode) -/
+  nlsp : C.isSpace 0x0a = true
   vis : ∀ c, 0x21 ≤ c → c ≤ 0x7e → C.isSpace c = false
   res_none : ∀ r, C.resolve none r = some r
   res_some : ∀ b r, C.resolve (some b) r = some (Prefix.goResolve b r)
